@@ -41,7 +41,7 @@ def run(v, tier, seed):
     def ref_mc(threads, maxops):
         r = vlib.tlc("RefImpl", ref_cfg("gen_MC_ref_%d.cfg" % threads, threads, maxops), "RefPool", coverage=True, workers=6, timeout=3400, heap="12g")
         vlib.require_ok(r, "RefImpl model check %d threads" % threads)
-        vlib.require_coverage(r, ["New", "Copy", "Reset", "Swap", "Publish", "Take", "Step"], "RefImpl")
+        vlib.require_coverage(r, ["New", "Copy", "Reset", "Alias", "Swap", "Publish", "Take", "Step"], "RefImpl")
         return "RefImpl %d threads x %d ops" % (threads, maxops), r
 
     def pool(n, maxpool):
